@@ -356,6 +356,11 @@ def corpus_variants(prop: str, root: str):
         edits, why = _patch_edits(root, pf)
         yield "benign", os.path.relpath(pf, VERIF_ROOT), edits, why
     for pf in sorted(glob.glob(os.path.join(VERIF_ROOT, "seeded", f"{prop}-*", "patch.diff"))):
+        try:
+            if json.load(open(os.path.join(os.path.dirname(pf), "meta.json"))).get("expect") == "missed":
+                continue          # a recorded miss (DESIGN.md): not claimed
+        except Exception:
+            pass
         edits, why = _patch_edits(root, pf)
         yield "break", os.path.relpath(pf, VERIF_ROOT), edits, why
 
